@@ -66,7 +66,7 @@ def subchecks(tier):
          "discipline": 0.7, "server_priority": 0.2, "routing_objects": 0.3, "process_routing": 0.2, "self_loops": 0.4, "zero_service": 0.3,
          "inf": 0.1, "reneging": 0.15, "system_capacity": 0.1, "sched_preempt": 0.4, "slotted": 0.2, "slot_capacitated": 0.6, "slot_preempt": 0.6}
     prof = S.Profile(ALLOWED, weights=w, numeric="mixed", max_nodes=3, max_classes=3, plans=("max_time", "max_customers"),
-                     horizon=(5.0, 14.0), budget=600, load="heavy", excluded=("sched_reroute_blocked", "sched_preempt_blocked_cc", "cc_preempt_after_restart"))
+                     horizon=(5.0, 14.0), budget=600, load="heavy", excluded=("cc_preempt_after_restart",))
     return [
         system_subcheck("system", prof, lambda spec: [ServiceOrder(spec)], nontrivial, classes=classes, obs=True,
                         n={"quick": 7200, "thorough": 40000}, rule="service starts vs priority/discipline oracle"),
